@@ -4,6 +4,9 @@
 //! [`crate::sharded::Cache`] via late binding, and lets callers
 //! transparently handle misses by looking in a series of secondary
 //! cache directories.
+#[cfg(kismet_verif)]
+#[allow(unused_imports)]
+use kismet_vfs::{filetime, libc, rand, std, tempfile};
 use std::borrow::Cow;
 use std::fs::File;
 use std::io::Error;
@@ -905,6 +908,9 @@ fn test_rc_to_error() {
 
 #[cfg(test)]
 mod test {
+    #[cfg(kismet_verif)]
+    #[allow(unused_imports)]
+    use kismet_vfs::{filetime, libc, rand, std, tempfile};
     use std::fs::File;
     use std::io::ErrorKind;
     use std::sync::atomic::AtomicU64;
